@@ -98,3 +98,59 @@ for sc in (True, False):
                          any_closure=True),
                  params={"data": "D"}, post=post, loops=LOOPS, clause_props=CP,
                  cover=["returned", "raised", f"raised and {SHAPE_OK}"])
+
+
+# ================================================================================================ dumpers
+# dumping a fixed-length tuple: the object must have exactly len(dumpers) elements (length errors are reported with the load-error
+# classes the code uses for them), element j is dumped by dumper j into a NEW tuple.  One spec for the three debug-trail modes.
+def _d(text):
+    return text.replace("loaders", "dumpers")
+
+
+SIZED = "py(lambda d: ctor_ok(len, d), data)"
+D_L = "len(dumpers)"
+D_SHAPE_OK = f"({SIZED} and {N} == {D_L})"
+D_POST = {
+    "accept-iff": _d(f"returned == ({D_SHAPE_OK} and {ALL_OK})"),
+    "value": _d(f"implies(returned, type(result) is tuple and is_fresh(result) and len(result) == {L} and "
+                f"forall(lambda j: implies(0 <= j and j < {L}, result[j] == res(loaders[j], {EL}[j]))))"),
+    "unsized": f"implies(not {SIZED}, raised and type(exc) is TypeLoadError and exc.input_value is data)",
+    "extra-items": (f"implies({SIZED} and {N} > {D_L}, raised and type(exc) is ExtraItemsLoadError and exc.expected_len == {D_L} and "
+                    f"exc.input_value is data)"),
+    "missing-items": (f"implies({SIZED} and {N} < {D_L}, raised and type(exc) is NoRequiredItemsLoadError and exc.expected_len == {D_L} and "
+                      f"exc.input_value is data)"),
+}
+D_ELEM_FAIL = f"(raised and {D_SHAPE_OK})"
+D_POST_DISABLE = {"first-error": _d(POST_DISABLE["first-error"].replace(ELEM_FAIL, D_ELEM_FAIL))}
+D_POST_FIRST = {"first-error": _d(POST_FIRST["first-error"].replace(ELEM_FAIL, D_ELEM_FAIL))}
+D_POST_ALL = {k: _d(v.replace(ELEM_FAIL, D_ELEM_FAIL)) for k, v in POST_ALL.items()}
+D_POST_ALL["agg-class"] = f"implies({D_ELEM_FAIL}, type(exc) is CompatExceptionGroup)"
+D_CP = {"accept-iff": ["C02", "C06"], "value": ["C02", "C06", "C01", "C20"], "unsized": ["C02"], "extra-items": ["C02", "C06"],
+        "missing-items": ["C02", "C06"], "first-error": ["C05", "C06"], "agg-class": ["C05", "C06"], "agg-sound": ["C05"],
+        "agg-complete": ["C05", "C06"], "agg-once": ["C05"], "modifies-nothing": ["C20"]}
+D_OKI = "ok(dumpers[j], data[j])"
+D_LOOPS = {
+    ("dt_first_dumper", 0): LoopSpec(
+        binds={"idx": "_i"},
+        inv=["len(yielded) == _i",
+             f"forall(lambda j: implies(0 <= j and j < _i, {D_OKI} and yielded[j] == res(dumpers[j], data[j])))"]),
+    ("dt_all_dumper", 0): LoopSpec(
+        binds={"idx": "_i"}, havoc_trails=True,
+        inv=[f"implies(len({E}) == 0, len(yielded) == _i)",
+             f"implies(len({E}) == 0, forall(lambda j: implies(0 <= j and j < _i, {D_OKI} and yielded[j] == res(dumpers[j], data[j]))))",
+             f"forall(lambda k: implies(0 <= k and k < len({E}), {elem_err(E + '[k]', '_i', loaders='dumpers', seq='data')}))",
+             f"forall(lambda j: implies(0 <= j and j < _i and not {D_OKI}, exists(lambda k: 0 <= k and k < len({E}) "
+             f"and is_err({E}[k], dumpers[j], data[j]) and trail_top_is({E}[k], j))))",
+             f"forall(lambda k1, k2: implies(0 <= k1 and k1 < k2 and k2 < len({E}), top_index({E}[k1]) < top_index({E}[k2])))",
+             ]),
+}
+for dt in (DebugTrail.DISABLE, DebugTrail.FIRST, DebugTrail.ALL):
+    post = dict(D_POST)
+    post.update({"DISABLE": D_POST_DISABLE, "FIRST": D_POST_FIRST, "ALL": D_POST_ALL}[dt.name])
+    contract(F, "ConstantLengthTupleProvider._make_dumper", name=f"{F}:ConstantLengthTupleProvider._make_dumper[{dt.name}]",
+             props=["C01", "C02", "C05", "C06", "C20"],
+             via=Via("ConstantLengthTupleProvider._make_dumper", {dt.name: lambda m: m.ConstantLengthTupleProvider()},
+                     args={"dumpers": "seq:DUMP"},
+                     instance_kwargs={dt.name: {"debug_trail": ("const", dt)}}, any_closure=True),
+             params={"data": "D"}, post=post, loops=D_LOOPS, clause_props=D_CP,
+             cover=["returned", "raised", f"raised and {D_SHAPE_OK}"])
